@@ -78,3 +78,30 @@ Theorem C03_step_grown_labels : forall fexp st o,
   st_inv st -> nf_ok st -> op_wf_l st o -> op_perms_ok fexp st o ->
   Forall (grown_ok (sorted_leaves st) (op_pairs st o)) (sorted_leaves (fst (step fexp st o))).
 Proof. exact step_grown_l. Qed.
+
+(* ---- the multi-round workflow (Proofs/MrBound.v) ----
+   [mr_pairs c]: the (criterion, threshold) pairs a run has in force — the initial criterion at
+   the threshold, the midsection and the final criterion (with the tolerance) at threshold + change.
+   Every cluster of the final file is the member list of a leaf cluster of one tree, and every such
+   cluster with two or more members meets one of these pairs; runs over any number of files, any
+   rounds, bin size, refinement mode, with or without cleanup. *)
+From Coq Require Import String.
+From BB Require Import Model.Multiround Proofs.MrBound.
+Theorem C03_multiround_bound : forall fexp nf (c : mr_cfg) (files : list (list fpv)) d,
+  Z.of_nat nf < 2 ^ 52 ->
+  Forall (Forall (fun fp : fpv => List.length fp = nf)) files ->
+  zlen (List.concat files) < 2 ^ 64 ->
+  2 <= m_bf c -> (1 <= m_bin c)%nat ->
+  run_multiround fexp c files [] = Some d ->
+  exists cl, dir_get d "clusters.pkl"%string = Some (CClusters cl) /\
+    forall l, In l cl -> (List.length l <= 1)%nat \/
+      exists s k t, sids s = l /\ sn s = zlen l /\ In (k, t) (mr_pairs fexp c) /\ meets k t s.
+Proof. exact multiround_bound_clusters. Qed.
+
+Example C03_multiround_bound_nonvacuous :
+  exists d st,
+    run_multiround MrBound.Demo.fid MrBound.Demo.c MrBound.Demo.files [] = Some d /\
+    dir_get d "clusters.pkl"%string = Some (CClusters (clusters st)) /\
+    clusters st = [[0; 1; 4]; [2; 3]] /\
+    Forall (bound_ok (mr_pairs MrBound.Demo.fid MrBound.Demo.c)) (sorted_leaves st).
+Proof. exact MrBound.Demo.multiround_bound_nonvacuous. Qed.
